@@ -31,9 +31,19 @@ def AllStrKV (P : String → Prop) : KVs → Prop
 end
 
 /-- the canary `c` occurs in `s` (as a contiguous substring of code points) -/
-def occurs (c : List Char) (s : String) : Prop := c <:+: s.toList
+def occursB (c : List Char) : List Char → Bool
+  | [] => c.isEmpty
+  | x :: xs => c.isPrefixOf (x :: xs) || occursB c xs
+
+def occurs (c : List Char) (s : String) : Prop := occursB c s.toList = true
 
 instance (c : List Char) (s : String) : Decidable (occurs c s) := by unfold occurs; infer_instance
+
+/-- `occursB` decides "is a contiguous sublist" -/
+theorem occursB_iff_infix (c : List Char) : ∀ l : List Char, occursB c l = true ↔ c <:+: l
+  | [] => by simp [occursB]
+  | x :: xs => by
+    simp only [occursB, Bool.or_eq_true, List.isPrefixOf_iff_prefix, occursB_iff_infix c xs, List.infix_cons_iff]
 
 /-- the canary occurs nowhere in the tree: not in a key, not in a string leaf -/
 def Clean (c : List Char) (v : Val) : Prop := AllStr (fun s => ¬ occurs c s) v
@@ -87,5 +97,22 @@ def vocabulary : List String :=
 
 /-- the keys the loader writes into the raw tree -/
 def carrierKeys : List String := [xValue, extKey, "Content", "content", "name"]
+
+/-- the names `setNameFromKey` generates for the resources of a section satisfy `P` -/
+def GenNamesOk (P : String → Prop) (pname sect : String) (dict : KVs) : Prop :=
+  ∀ objs, lookup sect dict = some (.map objs) → ∀ e ∈ objs, P (pname ++ "_" ++ e.1)
+
+/-- no config of the model names the empty variable as its source -/
+def NoEmptySource (dict : KVs) : Prop :=
+  ∀ objs, lookup "configs" dict = some (.map objs) → ∀ e ∈ objs, ∀ kvs, e.2 = .map kvs → lookup "environment" kvs ≠ some (.str "")
+
+/-- what the theorems assume about `P`: it holds of every key the loader and the renderers write themselves -/
+structure VocabOk (P : String → Prop) : Prop where
+  vocab : ∀ k ∈ vocabulary, P k
+  carriers : ∀ k ∈ carrierKeys, P k
+
+/-- a heap whose allocated addresses are all below `next` -/
+def Heap.WF (h : Heap) : Prop := ∀ e ∈ h.maps, e.1 < h.next
+
 
 end CV.Secrets
